@@ -152,6 +152,19 @@ def run_step(step, heap):
         y = x.copy()
         y.fill_missing_blocks()
         return y
+    if op == "plain_twin":
+        # the same tensor over indices that have the same charge tables and
+        # directions but no sub-index structure (a fused leg becomes a plain
+        # one), built through the public constructors on copied blocks
+        idx = tuple(sr.BlockIndex(dict(ix.chargemap), dual=ix.dual) for ix in x.indices)
+        kw = {}
+        if not type(x).static_symmetry:
+            kw["symmetry"] = x.symmetry
+        if isinstance(x, sr.FermionicArray):
+            kw["phases"] = dict(x.phases)
+            kw["oddpos"] = list(x.oddpos)
+        return type(x)(indices=idx, charge=x.charge,
+                       blocks={k: np.array(b, copy=True) for k, b in x.blocks.items()}, **kw)
     if op == "reassemble":
         # a new array from the public parts of another, handed to the public
         # constructor as they are
